@@ -7,6 +7,7 @@ import (
 	"fmt"
 	"os"
 	"path/filepath"
+	"regexp"
 	"sort"
 	"strings"
 	"sync"
@@ -192,6 +193,11 @@ var knownIssueTags = []issueTag{
 		}
 		return false
 	}},
+	// C02-7: a pointer argument that is not a whole variable (&wmem[i], &pv.m) is copied into a Function-class
+	// temporary although the parameter is ptr<workgroup / private, T>
+	{"c02.call.spilled-pointer-arg-class", func(i spv.Issue, c *Case, m *spv.Module) bool {
+		return i.Rule == "call.signature" && spilledArgRe.MatchString(i.Msg)
+	}},
 	// C02-6: ir.ProcessOverrides leaves the gradient operands of textureSampleGrad pointing at the wrong expressions
 	{"c02.override.gradient-remap", func(i spv.Issue, c *Case, m *spv.Module) bool {
 		if c.Opts["overrides"] != "1" || instOp(m, i.Inst) != 88 /* OpImageSampleExplicitLod */ || m.Insts[i.Inst].Arg(2)&0x4 == 0 {
@@ -218,6 +224,8 @@ var knownIssueTags = []issueTag{
 		return false
 	}},
 }
+
+var spilledArgRe = regexp.MustCompile(`^OpFunctionCall argument \d+ has type ptr<Function,(.*)>, parameter type is ptr<(Workgroup|Private),(.*)>$`)
 
 func judgeValid(raw json.RawMessage) (bool, string) {
 	var c Case
